@@ -405,6 +405,21 @@ func (c *Ctx) convert(fr *Frame, from, to types.Type, x Value) Value {
 				}
 				// []rune
 				x = c.concSliceLen(fr, x)
+				allC := true
+				for i := 0; i < int(x.n.cval); i++ {
+					if !x.arr.elems[x.off+i].(*Term).isC {
+						allC = false
+					}
+				}
+				if enc := c.w.findFunc("unicode/utf8", "AppendRune"); !allC && enc != nil {
+					// symbolic runes: the real utf8.AppendRune decides each rune's size class (a fork per
+					// class at most, none when the path condition already fixes it); no split over values
+					var acc Value = Slice{n: tb.Int(0, 64)}
+					for i := 0; i < int(x.n.cval); i++ {
+						acc = c.call(fr, enc, []Value{acc, x.arr.elems[x.off+i].(*Term)}, nil)
+					}
+					return c.bytesToStr(fr, c.concSliceLen(fr, acc.(Slice)))
+				}
 				var sb strings.Builder
 				for i := 0; i < int(x.n.cval); i++ {
 					r := x.arr.elems[x.off+i].(*Term)
@@ -503,6 +518,22 @@ func (c *Ctx) convert(fr *Frame, from, to types.Type, x Value) Value {
 			}
 			// []rune(s)
 			s = c.normStr(s)
+			if dec := c.w.findFunc("unicode/utf8", "DecodeRuneInString"); s.b != nil && dec != nil {
+				// symbolic bytes: fix the length, then decode rune by rune through the real utf8 code
+				s = c.concretizeStrLen(fr, s)
+				if s.b != nil {
+					n := int(s.n.cval)
+					arr := &Array{}
+					for pos := 0; pos < n; {
+						rest := c.normStr(Str{b: s.b[pos:n], n: tb.Int(int64(n-pos), 64)})
+						r := c.call(fr, dec, []Value{rest}, nil).(Tuple)
+						sz := c.concretize(fr, r[1].(*Term), "rune size")
+						arr.elems = append(arr.elems, r[0])
+						pos += int(sz)
+					}
+					return Slice{arr: arr, n: tb.Int(int64(len(arr.elems)), 64), cap: len(arr.elems)}
+				}
+			}
 			if s.b != nil {
 				s = c.concretizeStr(fr, s, "[]rune conversion")
 			}
